@@ -34,6 +34,24 @@ func c17(tier string, args []string) int {
 		m, err = requests.ReconstructBakedMessage(pos)
 		return
 	}
+	// first in DESCENDING order (a fresh process): an answer must not depend on which positions
+	// were asked before
+	for pos := positions - 1; pos >= 0; pos -= 1 {
+		m, err, pv := call(pos)
+		evals++
+		if pv != nil || err != nil {
+			continue // judged in the ascending pass below
+		}
+		idx, perr := strconv.ParseUint(m.MessageID, 10, 64)
+		if perr != nil {
+			continue
+		}
+		want := oracle.SpecSigningRoot(idx)
+		if string(m.Payload) != string(want[:]) {
+			r.Violation("C17/wrong-signing-root/order-dependent", fmt.Sprintf("position %d asked after the higher positions (validator %d): message %x, consensus-spec signing root %x", pos, idx, m.Payload, want), map[string]interface{}{"position": pos, "order": "descending"})
+			break
+		}
+	}
 	for pos := 0; pos < positions; pos++ {
 		m, err, pv := call(pos)
 		evals++
